@@ -11,17 +11,17 @@ fn srv_job(tier: Tier, quick: u64, thorough: u64) -> Job {
 }
 fn c04_plan(tier: Tier) -> Vec<Job> {
     let mut v = conn::c04_conn_jobs(tier);
-    v.push(srv_job(tier, 1_500, 40_000));
+    v.push(srv_job(tier, 8_000, 200_000));
     v
 }
 fn c11_plan(tier: Tier) -> Vec<Job> {
     let mut v = conn2::c11_conn_jobs(tier);
-    v.push(srv_job(tier, 1_500, 40_000));
+    v.push(srv_job(tier, 8_000, 200_000));
     v
 }
 fn c13_plan(tier: Tier) -> Vec<Job> {
     let mut v = conn::c13_conn_jobs(tier);
-    v.push(srv_job(tier, 1_500, 40_000));
+    v.push(srv_job(tier, 8_000, 200_000));
     v
 }
 
